@@ -199,7 +199,13 @@ func genC16(t *rapid.T) *C16Case {
 			TrailingContinuation: rapid.IntRange(0, 5).Draw(t, "trailcont") == 0, LongComment: rapid.IntRange(0, 9).Draw(t, "longcomment") == 0})
 	}
 	if rapid.IntRange(0, 2).Draw(t, "nearmiss") == 0 {
-		c.NearMiss = rapid.SampledFrom([]string{"del-quote", "dup-open-quote", "del-pipe", "dup-pipe", "dup-comma", "trailing-comma", "del-id-colon", "del-blank"}).Draw(t, "misskind")
+		c.NearMiss = rapid.SampledFrom([]string{"del-quote", "dup-open-quote", "del-pipe", "dup-pipe", "dup-comma", "trailing-comma", "del-id-colon", "del-blank",
+			"del-pipe-after-regex", "del-action-quote"}).Draw(t, "misskind")
+		if c.NearMiss == "del-action-quote" && known("C16-unclosed-action-quote-warning") {
+			// known finding: an unclosed quote in the action list is a warning, not an error
+			statExcluded("C16-unclosed-action-quote-warning")
+			c.NearMiss = "del-quote"
+		}
 		c.MissArg = rapid.IntRange(0, 3).Draw(t, "missarg")
 	}
 	return c
@@ -653,6 +659,23 @@ func (c *C16Case) nearMissText() (string, bool) {
 			return strings.Replace(first, tgs, prefix+"|"+tgs[len(prefix):], 1) + rest, true
 		}
 		return "", false
+	case "del-pipe-after-regex":
+		for i := 0; i+1 < len(r.Targets); i++ {
+			if !r.Targets[i].Rx {
+				continue
+			}
+			prefix := renderTargets(r.Targets[:i+1])
+			tgs := renderTargets(r.Targets)
+			return strings.Replace(first, tgs, prefix+tgs[len(prefix)+1:], 1) + rest, true
+		}
+		return "", false
+	case "del-action-quote":
+		// the closing quote of a quoted action value that is followed by another action
+		i := strings.Index(first, "',")
+		if i < 0 || strings.Count(first[:i], "'")%2 == 0 {
+			return "", false
+		}
+		return first[:i] + first[i+1:] + rest, true
 	case "dup-comma":
 		i := strings.Index(first, "phase:")
 		if i < 0 {
